@@ -56,9 +56,12 @@ Definition ctx_compare_server_default (c:cfg) (insp meta:option (list N)) : bool
   if negb (compare_server_default c) then false else sqlite_compare_server_default insp meta.
 
 (* ---------------------------------------------------------------- column comparators *)
-(* _compare_nullable: modify_nullable := metadata value when they differ *)
+(* _compare_nullable: modify_nullable := metadata value when they differ - unless one side is a generated column and the model
+   left nullable unset ("Ignoring nullable change on identity column"; Identity itself is outside the universe) *)
 Definition compare_nullable (conn meta:col) : option bool :=
-  if Bool.eqb (c_null conn) (c_null meta) then None else Some (c_null meta).
+  if Bool.eqb (c_null conn) (c_null meta) then None
+  else if (is_computed (c_default meta) || is_computed (c_default conn)) && negb (c_null_set meta) then None
+  else Some (c_null meta).
 (* _compare_type: modify_type := metadata type when the context says they differ *)
 Definition compare_type_col (c:cfg) (conn meta:col) : option ty :=
   if ctx_compare_type c (c_ty conn) (c_ty meta) then Some (c_ty meta) else None.
@@ -69,10 +72,15 @@ Definition compare_type_col (c:cfg) (conn meta:col) : option ty :=
 Definition compare_server_default_col (c:cfg) (conn meta:col) : option (option dflt) :=
   match c_default conn, c_default meta with
   | None, None => None
-  | cd, md => if ctx_compare_server_default c (option_map d_txt cd) (option_map d_txt md) then Some md else None
+  | cd, md => if is_computed md then None             (* _compare_computed_default: only warns *)
+              else if is_computed cd then None        (* _warn_computed_not_supported; return False *)
+              else if ctx_compare_server_default c (option_map d_txt cd) (option_map d_txt md) then Some md else None
   end.
 Definition existing_server_default (conn meta:col) : option dflt :=
-  match c_default conn, c_default meta with None, None => None | cd, _ => cd end.
+  match c_default conn, c_default meta with
+  | None, None => None
+  | cd, md => if is_computed md || is_computed cd then None else cd
+  end.
 
 (* the AlterColumnOp built in _compare_columns; appended only if has_changes() *)
 Definition alter_column (c:cfg) (tn:N) (conn meta:col) : list op :=
@@ -166,6 +174,8 @@ Definition fk_sig_eqb (a b:fk) : bool :=
   && opt_eqb (list_eqb N.eqb) (sig_action (o_onupdate (f_opts a))) (sig_action (o_onupdate (f_opts b)))
   && opt_eqb (list_eqb N.eqb) (sig_action (o_ondelete (f_opts a))) (sig_action (o_ondelete (f_opts b)))
   && defer3_eqb (sig_defer (f_opts a)) (sig_defer (f_opts b)).
+Definition fk_names_ok (A B:schema) : bool :=
+  forallb (fun m => match kfind t_name (t_name m) A with Some c => fk_names_okb fk_sig_eqb (t_fks c) (t_fks m) | None => true end) B.
 Definition compare_foreign_keys (tn:N) (conn_table metadata_table:option table) : list op :=
   match conn_table, metadata_table with
   | Some c, Some m =>
